@@ -176,12 +176,31 @@ impl PanicInfo {
       .skip_while(|s| *s != "src")
       .nth(1)
       .unwrap_or("?");
-    let mut msg: String = self.msg.chars().take(48).collect();
-    // strip volatile numbers
-    msg = msg
+    // message prefix without quoted input text, error payloads and volatile numbers
+    let head: String = if self.msg.starts_with("called `") {
+      let cut = self.msg.find(": ").unwrap_or(self.msg.len());
+      self.msg[..cut].replace('`', "")
+    } else {
+      let cut = self.msg.find(['`', '"', '\'']).unwrap_or(self.msg.len());
+      let cut = self.msg[..cut].find(": ").unwrap_or(cut);
+      self.msg[..cut].to_string()
+    };
+    let msg: String = head
+      .trim()
       .chars()
-      .map(|c| if c.is_ascii_digit() { '#' } else { c })
+      .take(56)
+      .map(|c| if c.is_ascii_digit() { '#' } else if c.is_whitespace() { '_' } else { c })
       .collect();
+    // a run of digits is one placeholder
+    let mut collapsed = String::with_capacity(msg.len());
+    for c in msg.chars() {
+      if c == '#' && collapsed.ends_with('#') {
+        continue;
+      }
+      collapsed.push(c);
+    }
+    let msg = collapsed;
+    let msg = msg.trim_end().to_string();
     format!("{}/{}|{}", krate, file, msg)
   }
 }
